@@ -744,6 +744,12 @@ func (g *Gen) blockTime() int64 {
 	return t
 }
 
+// lock: a third party locks a few coins in a vesting account at an escrow address of the next auction(s)
+func (g *Gen) lock() Op {
+	n := uint64(len(g.auctions())) + uint64(g.r.N(2))
+	return NewOp("LOCK", "to", fmt.Sprintf("%s%d", g.r.Pick("es", "ep", "ev", "ep", "ev"), n), "d", fmt.Sprint(g.r.N(4)), "amt", fmt.Sprint(1+g.r.N(3)))
+}
+
 func (g *Gen) send() Op {
 	as := g.auctions()
 	id := uint64(0)
@@ -1056,6 +1062,9 @@ func (g *Gen) Next() Op {
 	case "FBLOCK":
 		return NewOp("FBLOCK", "t", fmt.Sprint(g.blockTime()), "k", fmt.Sprint(g.r.N(6)))
 	case "SEND":
+		if g.r.P(35) {
+			return g.lock()
+		}
 		return g.send()
 	case "LISTEN":
 		return g.listen()
